@@ -7,6 +7,8 @@ left only on CLSE; (2) _service returns JOIN(b'', G) and, when decoding, DECODE(
 own; (4) the public wrappers pass the service name, the utf-8 encoded command and the decode flag; the stream is
 opened for b'<service>:<command>' and drained by (1); (5) stream isolation is by id comparison in the pump (C06).
 Not decided: the decoded text values (bytes.decode is trusted).
+Always-delivers: none of the wrappers / generators on the way (shell .. _streaming_command, the drain) can end normally without having opened
+the stream and read from it (no early return for a special input).
 """
 import ast
 
